@@ -132,8 +132,7 @@ PROPS = {
         "level_text": "Unbounded proof on the real functions: Distinfo::as_bytes / Entry::as_bytes / push_checksum_line / push_size_line write exactly "
                       "print_distinfo(view): RCS Id (or $NetBSD$), blank line, per distfile its checksum lines in order then its size line, per "
                       "patch its checksum lines - the file name emitted as its raw bytes - and Distinfo::from_bytes is proved equal to "
-                      "parse_distinfo (C11). The two compositions parse(print(d)) ~ d and print(parse(t)) == t for canonical t are NOT yet "
-                      "lemmas: they are checked by the bounded search of the replay crate (labelled bounded).",
+                      "parse_distinfo (C11). The round trip is a THEOREM over those two contracts (lib/distinfo_roundtrip.rs): for every canonical value v (RCS Id line of any bytes without newline starting '$NetBSD: ', or none; names of any non-whitespace bytes, pairwise path-distinct; hashes non-empty ASCII without blanks; every distfile with a checksum or a size <= u64::MAX; patches with checksums only) parse_distinfo(print_distinfo(v)) == v (theorem_parse_print: field splitting of each printed line, the six algorithm names, u64 text, entry blocks by induction), hence print(parse(t)) == t byte for byte for every canonical file t = print(v).",
         "level_note": VERUS_TRUST + "indexmap::IndexMap as an opaque insertion-ordered map keyed by std::path equality (values(), insert, get, get_mut "
                       "with prophecy-style &mut contract); PathBuf/OsString byte views; format!() shims (`{}` of Digest = its Display, proved to be the "
                       "name table; `{}` of u64 assumed to re-parse); Digest Display via Formatter shim.",
